@@ -43,11 +43,37 @@ func (o *fakeOp) Cancel() {
 	}
 }
 
+type manualDeadline struct {
+	mu   sync.Mutex
+	done chan struct{}
+	err  error
+}
+
+func (m *manualDeadline) Deadline() (time.Time, bool) { return time.Now().Add(time.Hour), true }
+func (m *manualDeadline) Done() <-chan struct{}       { return m.done }
+func (m *manualDeadline) Value(any) any               { return nil }
+func (m *manualDeadline) Err() error {
+	m.mu.Lock()
+	defer m.mu.Unlock()
+	return m.err
+}
+func (m *manualDeadline) expire() {
+	m.mu.Lock()
+	if m.err == nil {
+		m.err = context.DeadlineExceeded
+		close(m.done)
+	}
+	m.mu.Unlock()
+}
+
 var errServer = errors.New("server error status")
 var errCancel = errors.New("request canceled")
 
 func (a *AsyncRun) Run() []TraceLine {
-	ctx, cancel := context.WithCancel(context.Background())
+	// the deadline of the call's context passes when the schedule says so (ctx.Err() is then context.DeadlineExceeded, as it is
+	// for the context.WithTimeout contexts of the real wrappers)
+	ctx := &manualDeadline{done: make(chan struct{})}
+	cancel := ctx.expire
 	defer cancel()
 	opm := couchbase.NewAsyncOp(ctx)
 	ch := make(chan error, 1)
